@@ -56,7 +56,10 @@ def main():
         left = sh("git -C /repo status --porcelain --untracked-files=no").stdout.strip()
         if left:
             print("WARNING: /repo not clean after undo:", left)
-    json.dump(results, open(os.path.join(d, "check_results_%s.json" % tier), "w"), indent=1)
+    path = os.path.join(d, "check_results_%s.json" % tier)
+    old = json.load(open(path)) if os.path.exists(path) else []
+    keep = [r for r in old if (r["property"], r["seed"]) not in {(x["property"], x["seed"]) for x in results}]
+    json.dump(keep + results, open(path, "w"), indent=1)
     return 0
 
 
